@@ -99,6 +99,13 @@ pub fn swarm_net(rng: &mut Rng, lat_choices: &[u64], faults: bool) -> NetCfg {
         lat_max_ms: *rng.pick(lat_choices),
         ..Default::default()
     };
+    // scheduling jitter (no virtual time passes, so it is on in every family): derived from the
+    // net seed rather than drawn, so that adding it did not reshuffle the generators' other draws
+    n.yield_ppm = match n.seed % 4 {
+        1 => 30_000,
+        2 => 200_000,
+        _ => 0,
+    };
     if faults {
         let rates = [0u32, 0, 5_000, 20_000, 80_000, 200_000];
         if rng.chance(1, 2) {
